@@ -35,6 +35,12 @@ def replay_for(prop: str, ob: dict, all_failed) -> dict:
         tried.append({"scenario": name, "exit": code, "output": out[-1200:]})
         if code == 1:
             return {"reproduced": True, "scenario": name, "command": f"PYTHONPATH={REPO}/src {PY} {ROOT}/replay/scenarios_run.py {name}", "output": out[-1200:], "tried": tried}
+    if prop in ("C16", "C17", "C18"):
+        seed = os.environ.get("VERIF_SEED", "0") or "0"
+        code, out = run_native("replay/random_commands.py", [prop, seed, "600"], timeout=600, full=True)
+        tried.append({"scenario": "random_commands", "exit": code, "output": out[-800:]})
+        if code == 1:
+            return {"reproduced": True, "scenario": "random_commands", "command": f"PYTHONPATH={REPO}/src {PY} {ROOT}/replay/random_commands.py {prop} {seed} 600", "output": out[-1500:], "tried": tried}
     # last candidate for the pool properties: the seeded random-history explorer (its oracles are those of the properties)
     if re.fullmatch(r"C(0[1-9]|1[0-5])", prop):
         seed = os.environ.get("VERIF_SEED", "0") or "0"
